@@ -545,8 +545,10 @@ def run_c04(ctx):
         off = 3 if nd % 3 == 0 else None
         ln = data_total(True, nsnr, off, nd)
         vals.append(('big', (bool(nd & 1), ln if ln <= 65535 else None, 7, 8, nsnr, off, rbytes(rng, nd))))
-    enc = ['ENC\t%s\t' % data_text(*v) for (_, v) in vals]
-    r1 = run_compare(ctx, rep, enc, [t for (t, _) in vals], lambda c, r: r)
+    # one in four is encoded behind what the writer already holds; the message is what was appended
+    pre = [rbytes(rng, rng.choice([1, 6, 12, 300])).hex() if i % 4 == 3 else '' for i in range(len(vals))]
+    enc = ['ENC\t%s\t%s' % (data_text(*v), p) for (_, v), p in zip(vals, pre)]
+    r1 = run_compare(ctx, rep, enc, [t + ('/prefixed' if p else '') for (t, _), p in zip(vals, pre)], lambda c, r: r)
     dec, exp = [], []
     for i, (t, v) in enumerate(vals):
         r = r1['release'][i]
@@ -554,7 +556,7 @@ def run_c04(ctx):
             rep.fail('encoding a data message did not return', case=enc[i], executor='release', result=r[:200])
             continue
         P, ln, tid, sid, nsnr, off, payload = v
-        dec.append('DEC\t%d\t%s' % (rng.randrange(8), r[3:]))
+        dec.append('DEC\t%d\t%s' % (rng.randrange(8), r[3:][len(pre[i]):]))
         exp.append('Ok %s rem=0' % data_text(P, ln, tid, sid, nsnr, None, payload[(off or 0):]))
     r2 = run_compare(ctx, rep, dec, ['dec'] * len(dec), lambda c, r: r)
     for w in IMPLS:
